@@ -71,6 +71,11 @@ def cases(seed, tier):
                                       for _ in range(3)],
                         'beat': [prng.random() < 0.4 for _ in range(k)],
                         'handled': [prng.random() < 0.5 for _ in range(k)],
+                        # the task of a silent action is failed by its own
+                        # timeout first: the action is still RUNNING under a
+                        # finished task (and maybe a finished workflow) when
+                        # its heartbeats run out
+                        'timeouts': [prng.random() < 0.25 for _ in range(k)],
                         # expired stand-alone action executions without a
                         # task (the checker skips them): as many as a
                         # batch, or more
@@ -94,6 +99,8 @@ def hb_program(case):
         nm = 'a%d' % i
         T = {'name': nm, 'async': kind == 'async', 'edges': [],
              'publish': {}, 'join': None, 'reads': []}
+        if kind == 'silent' and (case.get('timeouts') or [False] * 9)[i]:
+            T['policies'] = {'timeout': 1}
         if case['handled'][i]:
             T['edges'].append({'clause': 'on-error', 'to': 'h%d' % i,
                                'guard': None, 'form': 'list'})
